@@ -53,4 +53,194 @@ theorem qlinear_eq_sq (t : Tie) (c : LinCfg) (h : c.signFn = false) (x : ℚ) :
   simp only [h, Bool.false_eq_true, if_false]
   rw [round_clip_eq_rc t _ c.lo_le_hi]
 
+/-! ### the trailing `relu_upper_bound` pass -/
+
+theorem clampTo_le (b : Option ℚ) (y : ℚ) : clampTo b y ≤ y := by
+  unfold clampTo
+  cases b with
+  | none => exact le_rfl
+  | some u => simp only; split <;> linarith
+
+theorem clampTo_le_bound (u y : ℚ) : clampTo (some u) y ≤ u := by
+  unfold clampTo; simp only; split <;> linarith
+
+theorem clampTo_mono (b : Option ℚ) {y y' : ℚ} (h : y ≤ y') : clampTo b y ≤ clampTo b y' := by
+  unfold clampTo
+  cases b with
+  | none => exact h
+  | some u => simp only; split <;> split <;> linarith
+
+theorem clampTo_of_le {u y : ℚ} (h : y ≤ u) : clampTo (some u) y = y := by
+  unfold clampTo; simp only; rw [if_pos h]
+
+/-- clamping a lattice point at a lattice point gives a lattice point -/
+theorem clampTo_lattice {s : ℚ} (hs : 0 < s) (k j : ℤ) :
+    clampTo (some ((j : ℚ) * s)) ((k : ℚ) * s) = ((min k j : ℤ) : ℚ) * s := by
+  unfold clampTo
+  simp only
+  by_cases h : k ≤ j
+  · have : (k : ℚ) * s ≤ (j : ℚ) * s := by
+      have : (k : ℚ) ≤ (j : ℚ) := by exact_mod_cast h
+      nlinarith
+    rw [if_pos this, min_eq_left h]
+  · push Not at h
+    have : ¬ (k : ℚ) * s ≤ (j : ℚ) * s := by
+      have : (j : ℚ) < (k : ℚ) := by exact_mod_cast h
+      intro hc; nlinarith
+    rw [if_neg this, min_eq_right h.le]
+
+theorem ReluCfg.clamp_of_qclip {c : ReluCfg} (h : c.qclip = true) : c.clamp = none := by
+  unfold ReluCfg.clamp; rw [if_pos h]
+
+theorem ReluCfg.clamp_of_no_upper {c : ReluCfg} (h : c.upper = none) : c.clamp = none := by
+  unfold ReluCfg.clamp; rw [h]; split <;> rfl
+
+/-- `relu_upper_bound = 0.0` is falsy: no clamp -/
+theorem ReluCfg.clamp_of_zero {c : ReluCfg} (h : c.upper = some 0) : c.clamp = none := by
+  unfold ReluCfg.clamp; rw [h]; split <;> simp
+
+theorem ReluCfg.clamp_some {c : ReluCfg} {u : ℚ} (h : c.clamp = some u) :
+    c.qclip = false ∧ c.upper = some u ∧ u ≠ 0 := by
+  unfold ReluCfg.clamp at h
+  split at h
+  · cases h
+  · rename_i hq
+    split at h
+    · cases h
+    · rename_i u' hu
+      split at h
+      · cases h
+      · rename_i hne
+        simp only [Option.some.injEq] at h
+        subst h
+        exact ⟨by simpa using hq, hu, hne⟩
+
+theorem qreluU_of_clamp_none (t : Tie) {c : ReluCfg} (h : c.clamp = none) (x : ℚ) :
+    qreluU t c x = qrelu t c x := by
+  unfold qreluU clampTo; rw [h]
+
+/-- plain ReLU with an on-grid (or no) active upper bound stays on the lattice -/
+theorem qreluU_plain_lattice (t : Tie) (c : ReluCfg) (h : c.slopeLog = none)
+    (hc : ∀ u, c.clamp = some u → ∃ j : ℤ, 0 ≤ j ∧ u = (j : ℚ) * c.step) (x : ℚ) :
+    ∃ k : ℤ, 0 ≤ k ∧ k ≤ c.hi ∧ qreluU t c x = (k : ℚ) * c.step := by
+  obtain ⟨k, h1, h2, hk⟩ := sq_lattice t c.step 1 x c.zero_le_hi
+  rw [← qrelu_plain_eq_sq t c h, one_mul] at hk
+  cases hcl : c.clamp with
+  | none => exact ⟨k, h1, h2, by rw [qreluU_of_clamp_none t hcl, hk]⟩
+  | some u =>
+    obtain ⟨j, hj, rfl⟩ := hc u hcl
+    refine ⟨min k j, le_min h1 hj, le_trans (min_le_left _ _) h2, ?_⟩
+    unfold qreluU
+    rw [hcl, hk, clampTo_lattice c.step_pos]
+
+/-- `m * step = 2^integer` -/
+theorem ReluCfg.m_step (c : ReluCfg) (hn : 0 ≤ c.nsb) : ((tp c.nsb : ℤ) : ℚ) * c.step = pow2 c.integer := by
+  unfold ReluCfg.step
+  rw [tp_cast hn, ← pow2_add]; congr 1; ring
+
+theorem rclip_mono {v v' lo hi : ℚ} (h : v ≤ v') (hlh : lo ≤ hi) : rclip v lo hi ≤ rclip v' lo hi := by
+  unfold rclip
+  split <;> split <;> (try split) <;> (try split) <;> linarith
+
+theorem rclip_bounds {v lo hi : ℚ} (hlh : lo ≤ hi) : lo ≤ rclip v lo hi ∧ rclip v lo hi ≤ hi := by
+  unfold rclip
+  split
+  · exact ⟨le_rfl, hlh⟩
+  · split
+    · exact ⟨hlh, le_rfl⟩
+    · constructor <;> linarith
+
+/-- clipping towards an interval that contains `w` does not move away from `w` -/
+theorem rclip_dist {v w lo hi : ℚ} (h1 : lo ≤ w) (h2 : w ≤ hi) : |rclip v lo hi - w| ≤ |v - w| := by
+  unfold rclip
+  split
+  · rw [abs_of_nonpos (by linarith), abs_of_nonpos (by linarith)]; linarith
+  · split
+    · rw [abs_of_nonneg (by linarith), abs_of_nonneg (by linarith)]; linarith
+    · exact le_rfl
+
+/-! ### per-channel scales -/
+
+theorem LinCfg.chan_signFn (c : LinCfg) (a : ℚ) : (c.chan a).signFn = c.signFn := rfl
+theorem LinCfg.chan_lo (c : LinCfg) (a : ℚ) : (c.chan a).lo = c.lo := rfl
+theorem LinCfg.chan_hi (c : LinCfg) (a : ℚ) : (c.chan a).hi = c.hi := rfl
+theorem LinCfg.chan_codes (c : LinCfg) (a : ℚ) : (c.chan a).codes = c.codes := rfl
+theorem LinCfg.chan_qs (c : LinCfg) (a : ℚ) : (c.chan a).qs = a * pow2 (c.integer - c.ub) := rfl
+
+theorem LinCfg.chan_qs_pos (c : LinCfg) {a : ℚ} (ha : 0 < a) : 0 < (c.chan a).qs := by
+  rw [LinCfg.chan_qs]; exact mul_pos ha (pow2_pos _)
+
+theorem LinCfg.lo_le_zero (c : LinCfg) : c.lo ≤ 0 := by
+  unfold LinCfg.lo
+  have := tp_pos c.ub
+  rw [twoPow_eq_tp]
+  split <;> (try split) <;> omega
+
+theorem LinCfg.zero_le_hi (c : LinCfg) : 0 ≤ c.hi := by
+  unfold LinCfg.hi; have := tp_pos c.ub; rw [twoPow_eq_tp]; omega
+
+/-- the codes `range()` lists are exactly the codes of the format -/
+theorem LinCfg.mem_codes (c : LinCfg) (k : ℤ) : k ∈ c.codes ↔ c.lo ≤ k ∧ k ≤ c.hi := by
+  have h1 := c.lo_le_zero
+  have h2 := c.zero_le_hi
+  unfold LinCfg.codes
+  simp only [List.mem_append, List.mem_map, List.mem_range]
+  constructor
+  · rintro (⟨i, hi, rfl⟩ | ⟨i, hi, rfl⟩)
+    · have : (i : ℤ) < c.hi + 1 := by
+        have : (i : ℤ) < ((c.hi + 1).toNat : ℤ) := by exact_mod_cast hi
+        rwa [Int.toNat_of_nonneg (by omega)] at this
+      omega
+    · have : (i : ℤ) < - c.lo := by
+        have : (i : ℤ) < ((- c.lo).toNat : ℤ) := by exact_mod_cast hi
+        rwa [Int.toNat_of_nonneg (by omega)] at this
+      omega
+  · rintro ⟨hl, hh⟩
+    by_cases hk : 0 ≤ k
+    · left
+      refine ⟨k.toNat, ?_, Int.toNat_of_nonneg hk⟩
+      have : ((k.toNat : ℕ) : ℤ) < (((c.hi + 1).toNat : ℕ) : ℤ) := by
+        rw [Int.toNat_of_nonneg hk, Int.toNat_of_nonneg (by omega)]; omega
+      exact_mod_cast this
+    · right
+      refine ⟨(k - c.lo).toNat, ?_, ?_⟩
+      · have : (((k - c.lo).toNat : ℕ) : ℤ) < (((- c.lo).toNat : ℕ) : ℤ) := by
+          rw [Int.toNat_of_nonneg (by omega), Int.toNat_of_nonneg (by omega)]; omega
+        exact_mod_cast this
+      · rw [Int.toNat_of_nonneg (by omega)]; ring
+
+theorem qlinearRange_eq_codes (c : LinCfg) (h : c.signFn = false) :
+    qlinearRange c = c.codes.map fun (k : ℤ) => (k : ℚ) * c.qs := by
+  unfold qlinearRange LinCfg.codes
+  simp only [h, Bool.false_eq_true, if_false, List.map_append, List.map_map]
+  rfl
+
+/-- element `j` of the output row is channel `j`'s scalar quantizer -/
+theorem qlinearPC_getElem (t : Tie) (c : LinCfg) (as row : List ℚ) (j : ℕ) (hj : j < as.length)
+    (hr : j < row.length) :
+    (qlinearPC t c as row)[j]'(by simp [qlinearPC]; omega) = qlinear t (c.chan as[j]) row[j] := by
+  simp [qlinearPC]
+
+theorem qbitsPC_getElem (t : Tie) (c : BitsCfg) (as row : List ℚ) (j : ℕ) (hj : j < as.length)
+    (hr : j < row.length) :
+    (qbitsPC t c as row)[j]'(by simp [qbitsPC]; omega) = qbits t (c.chan as[j]) row[j] := by
+  simp [qbitsPC]
+
+theorem lmax_ge_aux (l : List ℚ) (m : ℚ) :
+    m ≤ l.foldl (fun m a => if m < a then a else m) m ∧
+    ∀ a ∈ l, a ≤ l.foldl (fun m a => if m < a then a else m) m := by
+  induction l generalizing m with
+  | nil => simp
+  | cons b l ih =>
+    simp only [List.foldl_cons, List.mem_cons]
+    obtain ⟨h1, h2⟩ := ih (if m < b then b else m)
+    refine ⟨le_trans ?_ h1, ?_⟩
+    · split <;> linarith
+    · rintro a (rfl | ha)
+      · refine le_trans ?_ h1; split <;> linarith
+      · exact h2 a ha
+
+/-- `lmax` (= `K.max` of the scale tensor) dominates every entry -/
+theorem le_lmax {l : List ℚ} {a : ℚ} (h : a ∈ l) : a ≤ lmax l := (lmax_ge_aux l _).2 a h
+
 end QKV
